@@ -37,6 +37,7 @@ M = [
     ("c01_components_outside_graph_run", DR, "if (component not in broker and component in components and\n               component in DELEGATES and",
      "if (component not in broker and\n               component in DELEGATES and"),
     # ---- C02 -----------------------------------------------------------------
+    ("c02_f20_reverted", DR, "        # prune a copy: the graph may be the caller's or a registered group\n        components = dict(components)\n", ""),
     ("c02_group_needs_all_members", DR, "if not any(x in broker for x in d)]", "if not all(x in broker for x in d)]"),
     ("c02_optional_bound_before_required", DR, "        self.deps.extend(self.optional)\n\n        self.dependencies", "        self.deps = list(self.optional) + self.deps\n\n        self.dependencies"),
     ("c02_rule_skip_drops_groups", PL, "return _make_skip(dr.get_name(self.component), missing)", "return _make_skip(dr.get_name(self.component), (missing[0], []))"),
